@@ -19,8 +19,8 @@ def graph_case(draw):
         cands = [j for j in range(i) if depth[j] < 3]
         deps = draw(st.lists(st.sampled_from(cands), max_size=3, unique=True)) if cands else []
         depth[i] = 1 + max([depth[j] for j in deps] + [0])
-        nodes.append({"id": i, "async": draw(st.booleans()), "deps": deps, "msg": draw(st.integers(0, 3)) == 0, "tag": f"n{i}",
-                      "fails": False})
+        nodes.append({"id": i, "async": draw(st.booleans()), "deps": deps, "msg": draw(st.integers(0, 2)) == 0, "tag": f"n{i}",
+                      "fails": False, "msg_pos": draw(st.integers(0, 3)), "dflt": draw(st.booleans())})
     actor_deps = draw(st.lists(st.integers(0, n - 1), min_size=1, max_size=3, unique=True))
     overrides = []
     for _ in range(draw(st.integers(0, 2))):
@@ -28,18 +28,23 @@ def graph_case(draw):
         cands = list(range(tgt))
         overrides.append({"node": tgt, "async": draw(st.booleans()),
                           "deps": draw(st.lists(st.sampled_from(cands), max_size=2, unique=True)) if cands else [],
-                          "msg": draw(st.integers(0, 3)) == 0, "tag": f"n{tgt}v{len(overrides) + 1}"})
+                          "msg": draw(st.integers(0, 2)) == 0, "tag": f"n{tgt}v{len(overrides) + 1}",
+                          "msg_pos": draw(st.integers(0, 3)), "dflt": draw(st.booleans())})
     fail_node = draw(st.one_of(st.none(), st.none(), st.integers(0, n - 1)))
     return {"nodes": nodes, "actor_deps": actor_deps, "overrides": overrides, "fail_node": fail_node,
-            "actor_msg": draw(st.booleans()), "payload": draw(st.one_of(st.none(), st.fixed_dictionaries({"x": st.integers(0, 9)}))),
+            "actor_msg": draw(st.booleans()), "actor_msg_pos": draw(st.integers(0, 3)), "payload": draw(st.one_of(st.none(), st.fixed_dictionaries({"x": st.integers(0, 9)}))),
             "retries": draw(st.integers(0, 1)), "converter": draw(st.sampled_from(["basic", "pydantic"])),
             "seed": draw(st.integers(0, 999))}
 
 
-def provider_source(name: str, tag: str, is_async: bool, deps: list, msg: bool, fails: bool) -> str:
+def provider_source(name: str, tag: str, is_async: bool, deps: list, msg: bool, fails: bool, msg_pos: int = 99,
+                    dflt: bool = False) -> str:
     params = [f"d{j}: Annotated[str, DEP[{j}]]" for j in deps]
     if msg:
-        params.append("m: MessageDependency")
+        # the message dependency may be declared anywhere among the annotated ones
+        params.insert(min(msg_pos, len(params)), "m: MessageDependency")
+    if dflt:
+        params.append("flag: bool = False")  # a plain parameter with a default is allowed
     parts = [f"{{d{j}}}" for j in deps] + (["{m.key.id_}"] if msg else [])
     body = f"    CALLS.append({tag!r})\n"
     if fails:
@@ -55,13 +60,14 @@ def build(case: dict, rec: list, calls: list):
     ns: dict = {"Annotated": Annotated, "MessageDependency": MessageDependency, "DEP": DEP, "CALLS": calls, "REC": rec}
     cur = {}  # node id -> current provider spec
     for nd in case["nodes"]:
-        src = provider_source(f"prov{nd['id']}", nd["tag"], nd["async"], nd["deps"], nd["msg"], case["fail_node"] == nd["id"])
+        src = provider_source(f"prov{nd['id']}", nd["tag"], nd["async"], nd["deps"], nd["msg"], case["fail_node"] == nd["id"],
+                              nd.get("msg_pos", 99), nd.get("dflt", False))
         exec(compile(src, "<provider>", "exec"), ns)  # noqa: S102
         DEP[nd["id"]] = Depends(ns[f"prov{nd['id']}"])
         cur[nd["id"]] = dict(nd, fails=case["fail_node"] == nd["id"])
     params = [f"p{j}: Annotated[str, DEP[{j}]]" for j in case["actor_deps"]]
     if case["actor_msg"]:
-        params.append("m: MessageDependency")
+        params.insert(min(case.get("actor_msg_pos", 99), len(params)), "m: MessageDependency")
     params.append("x: int = 0")
     names = [f"p{j}" for j in case["actor_deps"]]
     recd = ", ".join(f"{n!r}: {n}" for n in names)
@@ -69,7 +75,7 @@ def build(case: dict, rec: list, calls: list):
            f"{', ' + repr('m') + ': m.key.id_' if case['actor_msg'] else ''}}})\n    return 1\n")
     exec(compile(src, "<actor>", "exec"), ns)  # noqa: S102
     for i, ov in enumerate(case["overrides"]):
-        s = provider_source(f"ov{i}", ov["tag"], ov["async"], ov["deps"], ov["msg"], False)
+        s = provider_source(f"ov{i}", ov["tag"], ov["async"], ov["deps"], ov["msg"], False, ov.get("msg_pos", 99), ov.get("dflt", False))
         exec(compile(s, "<override>", "exec"), ns)  # noqa: S102
     return ns, DEP, cur
 
